@@ -128,6 +128,7 @@ class Interp:
         self.depth = 0
         self.ptr_phi = None         # value for pointer-typed loop-header phis
         self.phi_vals = {}          # preset values for header phis
+        self._lazy = 0
 
     # ------------------------------------------------------------ memory
     def rd(self, obj, off, nbytes):
@@ -148,6 +149,13 @@ class Interp:
     def val(self, fr, op, ty=None):
         k = op[0]
         if k == "i":
+            if op[1] not in fr.vals and op[1] in fr.f.insts:
+                ins = fr.f.insts[op[1]]
+                if ins["op"] in ("alloca", "bitcast", "getelementptr") and ins["type"].endswith("*") and self._lazy < 20:
+                    # pointer computations defined before the analysed region (allocas, field addresses)
+                    self._lazy += 1
+                    self.step(fr, ins, None)
+                    self._lazy -= 1
             return fr.vals.get(op[1])
         if k == "a":
             return fr.args[op[1]] if op[1] < len(fr.args) else None
@@ -738,3 +746,85 @@ def compose_dec_enc(dec, enc):
         if acc_u != {coord} or acc_k or acc_c:
             return coord, (sorted(acc_u), sorted(acc_k), acc_c)
     return None
+
+
+# ---------------------------------------------------------------------------------------------------------------
+def loop_transfer(prog, f, header, body, loop_paths):
+    """per acyclic path through one iteration of the loop: {target location: (frozenset of source atoms, const)}
+    over byte-addressed locals ('L', name, byte, bit), elements of parameter arrays ('E', param, byte, bit) and the
+    integer loop-carried values ('P', name, bit).  'T' marks a non-affine bit."""
+    from .mem import AddrMap
+    am = AddrMap(f)
+    out = {}
+    names = {}
+    for i in f.all_insts():
+        if i["op"] == "alloca":
+            names[i["id"]] = i.get("name") or ("#%d" % i["id"])
+    for (path, kind, tgt) in loop_paths(f, header, body):
+        if kind != "latch":
+            continue
+        V = Vars()
+
+        def mem_default(obj, byte, bit):
+            if obj[0] == "al":
+                return V.atom(("L", names.get(obj[2], obj[2]), byte, bit))
+            if obj[0] == "elem":
+                return V.atom(("E", obj[1], byte, bit))
+            return TOP
+        I = Interp(prog, V, mem_default)
+        fr = Frame(f, [("p", ("arg", k), 0) for k in range(len(f.params))], 0)
+        # parameters that are plain integers stay symbolic-free (TOP); pointer parameters are objects
+        for k, p in enumerate(f.params):
+            if not p["type"].endswith("*"):
+                sh = shape(p["type"])
+                fr.args[k] = ("b", [V.atom(("A", k, b)) for b in range(sh[0] * sh[1])]) if sh else None
+        hphis = [i for i in f.bbmap[header]["insts"] if i["op"] == "phi"]
+        for ph in hphis:
+            sh = shape(ph["type"])
+            if sh:
+                I.phi_vals[ph["id"]] = ("b", [V.atom(("P", ph.get("name", str(ph["id"])), b)) for b in range(sh[0] * sh[1])])
+            elif ph["type"].endswith("*"):
+                a = am.of(["i", ph["id"]])
+                I.phi_vals[ph["id"]] = ("p", ("elem", a.root[1] if a is not None and a.root[0] == "arg" else -1), 0)
+        try:
+            prev = None
+            for b in path:
+                I.run_blocks(fr, [b], prev)
+                prev = b
+        except NotAffine as e:
+            out[tuple(path)] = {"error": str(e)}
+            continue
+        res = {}
+
+        def enc(form):
+            if form is None:
+                return "T"
+            return (frozenset(V.names_of(form[0])), form[1])
+        for (obj, byte), cell in I.mem.items():
+            if obj[0] == "al" and obj[1] == 0:
+                for bit, form in enumerate(cell):
+                    loc = ("L", names.get(obj[2], obj[2]), byte, bit)
+                    e = enc(form)
+                    if e != (frozenset([loc]), 0):
+                        res[loc] = e
+            elif obj[0] == "elem":
+                for bit, form in enumerate(cell):
+                    loc = ("E", obj[1], byte, bit)
+                    e = enc(form)
+                    if e != (frozenset([loc]), 0):
+                        res[loc] = e
+        for ph in hphis:
+            sh = shape(ph["type"])
+            if not sh:
+                continue
+            v = None
+            for x, pb in zip(ph["ops"], ph["inblocks"]):
+                if pb == path[-1]:
+                    v = I.val(fr, x)
+            for b in range(sh[0] * sh[1]):
+                loc = ("P", ph.get("name", str(ph["id"])), b)
+                form = v[1][b] if v is not None and v[0] == "b" and b < len(v[1]) else TOP
+                res[loc] = enc(form)
+        res["cuts"] = len(I.cuts)
+        out[tuple(path[1:])] = res
+    return out
